@@ -296,7 +296,9 @@ pub fn gen(rng: &mut Rng, focus: Focus) -> ClientScn {
         calls.truncate(2);
         for c in calls.iter_mut() {
             c.deadline = Dl::Secs(*rng.pick(&[365u64, 400, 400, 700, 1278, 1500, 3650]) * 86_400);
-            c.abandon = None;
+            // a long call may be abandoned too: long after it started, or at the very instant one
+            // of its year-long timers fires
+            c.abandon = if rng.chance(250) { Some(Ab::AtMs(*rng.pick(&[100u64, 365, 365, 366, 400, 730]) * 86_400_000)) } else { None };
             // a call may also be the first thing that happens on a connection that has been
             // quiet for months (nothing has advanced the timer queue), or arrive while an
             // earlier call's timer has been pending for more than a year
